@@ -54,8 +54,9 @@ def gam(T, m, x, model):
 
 
 def record(tw, rng, n, stats, probe_cap=60):
-    probes = 0
-    carry = None          # a mass-fraction composition OBJECT that the previous mixture has already been asked with
+    # probes: known-finding probes emitted so far; carry: a mass-fraction composition OBJECT that the previous mixture has already
+    # been asked with
+    state = {"probes": 0, "probe_cap": probe_cap, "carry": None}
     for j in range(n):
         u = rng.random()
         raoult = u < 0.06
@@ -63,50 +64,65 @@ def record(tw, rng, n, stats, probe_cap=60):
         tr = tw.new()
         tr.append(dict(ev="Mix", **mix_desc(m, raoult)))
         for model in ("NRTL", "UNIQUAC"):
-            T = gen.some_temperature(rng)
-            x = gen.fraction(rng, ends=False) if rng.random() < 0.8 else rng.choice([gen.logu(rng, 1e-4, 1e-2), 1 - gen.logu(rng, 1e-4, 1e-2)])
-            if rng.random() < 0.35 and m.nrtl_params is not None:
-                # a SIBLING mixture - the same energies and first non-randomness factor, other optional parameters - has been evaluated
-                # at this very temperature just before: the answers for this mixture follow its own parameters
-                from pyvaporation.utils import NRTLParameters
-                q = m.nrtl_params
-                sib = pv.Mixture(name=m.name, first_component=m.first_component, second_component=m.second_component,
-                                 nrtl_params=NRTLParameters(g12=q.g12, g21=q.g21, alpha12=q.alpha12,
-                                                            alpha21=rng.choice([None, rng.uniform(0.1, 0.6)]),
-                                                            a12=rng.uniform(-2.0, 3.0), a21=rng.uniform(-2.0, 3.0)),
-                                 uniquac_params=m.uniquac_params)
-                try:
-                    gam(T, sib, x, "NRTL")
-                    pv.get_partial_pressures(T, sib, pv.Composition(p=x, type="molar"), "NRTL")
-                except Exception:  # noqa: BLE001
-                    pass
-            h = min(2e-4, x / 50, (1 - x) / 50)
-            pts = [x - 2 * h, x - h, x, x + h, x + 2 * h]
-            gs = [gam(T, m, p, model) for p in pts]
-            probe = False
-            if model == "UNIQUAC" and probes < probe_cap:
-                probe, probes = True, probes + 1
-            tr.append({"ev": "GD", "model": model, "T": F(T), "x": F(x), "h": F(h), "pts": [F(p) for p in pts],
-                       "g1": [g[0] for g in gs], "g2": [g[1] for g in gs], "probe": probe})
-            eps = [1e-4, 1e-6, 1e-8]
-            tr.append({"ev": "Pure", "model": model, "T": F(T), "eps": eps,
-                       "g_hi": [gam(T, m, 1.0 - e, model)[0] for e in eps],
-                       "g_lo": [gam(T, m, e, model)[1] for e in eps],
-                       "g_one": gam(T, m, 1.0, model)[0], "g_zero": gam(T, m, 0.0, model)[1]})
-            # partial pressures from a mass-fraction and from the equivalent mole-fraction input
-            w = gen.fraction(rng)
-            cw = pv.Composition(p=w, type="weight")
-            if carry is not None and rng.random() < 0.5:
-                cw, w = carry, carry.p      # the caller sweeps one feed specification over several mixtures / models
-            carry = cw
-            M1, M2 = float(m.first_component.molecular_weight), float(m.second_component.molecular_weight)
-            cx = pv.Composition(p=(w / M1) / (w / M1 + (1 - w) / M2), type="molar")      # Composition.tla's ToMolarP, independent of the code
-            pw = pv.get_partial_pressures(T, m, cw, model)
-            px = pv.get_partial_pressures(T, m, cx, model)
-            g = calculate_activity_coefficients(T, m, cx, model)
-            gw = calculate_activity_coefficients(T, m, cw, model)         # the same state supplied as a mass fraction
-            tr.append({"ev": "PP", "model": model, "T": F(T), "w": F(w), "x": F(cx.first), "x2": F(cx.second),
-                       "g": [F(g[0]), F(g[1])], "g_w": [F(gw[0]), F(gw[1])],
-                       "psat": [F(m.first_component.get_vapor_pressure(T)), F(m.second_component.get_vapor_pressure(T))],
-                       "p_w": [F(pw[0]), F(pw[1])], "p_x": [F(px[0]), F(px[1])]})
-            stats["nontrivial"].add((m.name, model, T, x))
+            mark = len(tr)
+            try:
+                _one_model(tw, rng, m, tr, model, raoult, stats, state)
+            except Exception as e:  # noqa: BLE001
+                # an exception of the library on an input of the quantifier: no relation can be stated on these records; they are
+                # dropped and counted (too many of them fail the check as machinery), the others decide
+                del tr[mark:]
+                stats["skipped"] = stats.get("skipped", 0) + 1
+                stats.setdefault("skipped_excs", {})[type(e).__name__] = stats.setdefault("skipped_excs", {}).get(type(e).__name__, 0) + 1
+
+
+def _one_model(tw, rng, m, tr, model, raoult, stats, state):
+    probes, probe_cap, carry = state["probes"], state["probe_cap"], state["carry"]
+    T = gen.some_temperature(rng)
+    x = gen.fraction(rng, ends=False) if rng.random() < 0.8 else rng.choice([gen.logu(rng, 1e-4, 1e-2), 1 - gen.logu(rng, 1e-4, 1e-2)])
+    if rng.random() < 0.35 and m.nrtl_params is not None:
+        # a SIBLING mixture - the same energies and first non-randomness factor, other optional parameters - has been evaluated
+        # at this very temperature just before: the answers for this mixture follow its own parameters
+        from pyvaporation.utils import NRTLParameters
+        q = m.nrtl_params
+        sib = pv.Mixture(name=m.name, first_component=m.first_component, second_component=m.second_component,
+                         nrtl_params=NRTLParameters(g12=q.g12, g21=q.g21, alpha12=q.alpha12,
+                                                    alpha21=rng.choice([None, rng.uniform(0.1, 0.6)]),
+                                                    a12=rng.uniform(-2.0, 3.0), a21=rng.uniform(-2.0, 3.0)),
+                         uniquac_params=m.uniquac_params)
+        try:
+            gam(T, sib, x, "NRTL")
+            pv.get_partial_pressures(T, sib, pv.Composition(p=x, type="molar"), "NRTL")
+        except Exception:  # noqa: BLE001
+            pass
+    h = min(2e-4, x / 50, (1 - x) / 50)
+    pts = [x - 2 * h, x - h, x, x + h, x + 2 * h]
+    gs = [gam(T, m, p, model) for p in pts]
+    probe = False
+    if model == "UNIQUAC" and probes < probe_cap:
+        probe, probes = True, probes + 1
+    tr.append({"ev": "GD", "model": model, "T": F(T), "x": F(x), "h": F(h), "pts": [F(p) for p in pts],
+               "g1": [g[0] for g in gs], "g2": [g[1] for g in gs], "probe": probe})
+    eps = [1e-4, 1e-6, 1e-8]
+    tr.append({"ev": "Pure", "model": model, "T": F(T), "eps": eps,
+               "g_hi": [gam(T, m, 1.0 - e, model)[0] for e in eps],
+               "g_lo": [gam(T, m, e, model)[1] for e in eps],
+               "g_one": gam(T, m, 1.0, model)[0], "g_zero": gam(T, m, 0.0, model)[1]})
+    # partial pressures from a mass-fraction and from the equivalent mole-fraction input
+    w = gen.fraction(rng)
+    cw = pv.Composition(p=w, type="weight")
+    if carry is not None and rng.random() < 0.5:
+        cw, w = carry, carry.p      # the caller sweeps one feed specification over several mixtures / models
+    carry = cw
+    M1, M2 = float(m.first_component.molecular_weight), float(m.second_component.molecular_weight)
+    cx = pv.Composition(p=(w / M1) / (w / M1 + (1 - w) / M2), type="molar")      # Composition.tla's ToMolarP, independent of the code
+    pw = pv.get_partial_pressures(T, m, cw, model)
+    px = pv.get_partial_pressures(T, m, cx, model)
+    g = calculate_activity_coefficients(T, m, cx, model)
+    gw = calculate_activity_coefficients(T, m, cw, model)         # the same state supplied as a mass fraction
+    tr.append({"ev": "PP", "model": model, "T": F(T), "w": F(w), "x": F(cx.first), "x2": F(cx.second),
+               "g": [F(g[0]), F(g[1])], "g_w": [F(gw[0]), F(gw[1])],
+               "psat": [F(m.first_component.get_vapor_pressure(T)), F(m.second_component.get_vapor_pressure(T))],
+               "p_w": [F(pw[0]), F(pw[1])], "p_x": [F(px[0]), F(px[1])]})
+    stats["nontrivial"].add((m.name, model, T, x))
+
+    state["probes"], state["carry"] = probes, carry
